@@ -312,13 +312,15 @@ def reprojerr (tiny : α) (K : Mat3 α) (ext : Option (SE3 α)) (red : Reduction
 `none` models a failed documented check (`assert`) or a kernel that raises; the cores above are what is left once the
 arguments have been resolved.  These wrappers are what the driver ops `c18.api.*` run against the real calls. -/
 
-inductive Dtype | f32 | f64
+inductive Dtype | f32 | f64 | f16 | bf16
 deriving DecidableEq, Repr, Inhabited
 
-/-- `torch.finfo(dtype).tiny`: `2⁻¹²⁶` / `2⁻¹⁰²²` -/
+/-- `torch.finfo(dtype).tiny`: `2⁻¹²⁶` (float32, bfloat16) / `2⁻¹⁰²²` (float64) / `2⁻¹⁴` (float16) -/
 def finfoTiny : Dtype → α
   | .f32 => q 1 (2 ^ 126)
   | .f64 => q 1 (2 ^ 1022)
+  | .f16 => q 1 (2 ^ 14)
+  | .bf16 => q 1 (2 ^ 126)
 
 /-- `pdim = points.size(-1) if pdim == None else pdim; assert points.size(-1) >= pdim`.  `D = points.size(-1)` is an
 argument of its own: a list of rows forgets it for the empty cloud `(0, D)`. -/
